@@ -95,34 +95,40 @@ func TestVerifDS(t *testing.T) {
 		emit("op", "reset", "ds", "fifo", "ep", id)
 		q := NewQueue[int]()
 		next := 1
-		targets := []int{1023, 1024, 1025, 2559, 2560, 2561, 4863, 4864, 4865, 300, 1500}
-		target := targets[rng.Intn(len(targets))] + rng.Intn(3) - 1
-		for q.Len() < target {
-			emit("ds", "fifo", "op", "enq", "v", next, "ok", q.Enqueue(next), "ep", id)
-			next++
-			if rng.Intn(40) == 0 {
-				v, ok := q.Dequeue()
-				emit("ds", "fifo", "op", "deq", "v", v.(int), "ok", ok, "ep", id)
+		// alternate fill / drain phases whose lengths sit on and around the segment sizes (1024, 1536, 2304)
+		// and their cumulative boundaries (1024, 2560, 4864), so that reader and writer meet the hand-overs in every alignment
+		sizes := []int{1023, 1024, 1025, 1535, 1536, 1537, 2559, 2560, 2561, 2304, 4864, 512, 1, 0, 300}
+		nph := 3 + rng.Intn(5)
+		for ph := 0; ph < nph; ph++ {
+			k := sizes[rng.Intn(len(sizes))] + rng.Intn(3) - 1
+			if ph%2 == 0 {
+				for i := 0; i < k; i++ {
+					emit("ds", "fifo", "op", "enq", "v", next, "ok", q.Enqueue(next), "ep", id)
+					next++
+				}
+			} else {
+				if rng.Intn(3) == 0 {
+					k = q.Len() // drain exactly to the reader/writer meeting point
+				}
+				for i := 0; i < k; i++ {
+					v, ok := q.Dequeue()
+					emit("ds", "fifo", "op", "deq", "v", v.(int), "ok", ok, "ep", id)
+					if !ok {
+						break
+					}
+				}
 			}
-		}
-		if rng.Intn(4) == 0 {
-			q.Purge()
-			emit("ds", "fifo", "op", "purge", "ep", id)
-			for i := 0; i < 1030; i++ {
-				emit("ds", "fifo", "op", "enq", "v", next, "ok", q.Enqueue(next), "ep", id)
-				next++
+			if rng.Intn(12) == 0 {
+				q.Purge()
+				emit("ds", "fifo", "op", "purge", "ep", id)
 			}
+			emit("ds", "fifo", "op", "len", "v", q.Len(), "ep", id)
 		}
-		emit("ds", "fifo", "op", "len", "v", q.Len(), "ep", id)
-		for i := 0; ; i++ {
+		for {
 			v, ok := q.Dequeue()
 			emit("ds", "fifo", "op", "deq", "v", v.(int), "ok", ok, "ep", id)
 			if !ok {
 				break
-			}
-			if rng.Intn(50) == 0 {
-				emit("ds", "fifo", "op", "enq", "v", next, "ok", q.Enqueue(next), "ep", id)
-				next++
 			}
 		}
 	}
